@@ -387,6 +387,9 @@ func (m *Machine) mapSorts(t types.Type) (Sort, Sort) {
 	if _, isPtr := mt.Key().Underlying().(*types.Basic); isPtr && mt.Key().Underlying().(*types.Basic).Kind() == types.UnsafePointer {
 		ks = SBV64
 	}
+	if typeString(mt.Key()) == "_refKey" {
+		ks = Sort("RefKeyV") // struct key {addr unsafe.Pointer; typ reflect.Type}
+	}
 	vs := m.elemSort(mt.Elem())
 	if typeString(mt.Elem()) == "_refElem" {
 		vs = Sort("RefElemV")
@@ -417,6 +420,9 @@ func (m *Machine) mapState(st *State, ref Term, t types.Type) *mapContent {
 }
 
 func (m *Machine) mapKeyTerm(st *State, v Value, ks Sort) Term {
+	if sv, ok := v.(*StructV); ok && ks == "RefKeyV" && len(sv.F) == 2 {
+		return app(ks, "mkrefkey", m.mapKeyTerm(st, sv.F[0], SBV64), sv.F[1].(Term))
+	}
 	switch x := v.(type) {
 	case Term:
 		if x.Sort == ks {
